@@ -216,6 +216,17 @@ func (r *BumpRequest) MaxFeeRateAllowed() (chainfee.SatPerKWeight, error) {
 	// can be very high and we need to make sure it doesn't exceed the max
 	// fee rate.
 	maxFeeRateAllowed := chainfee.NewSatPerKWeight(r.Budget, size)
+
+	// NewSatPerKWeight rounds to the nearest sat/kw, so the fee implied by
+	// the rate can exceed the budget by a few sats. Step down until the
+	// budget covers it, otherwise the ceiling of the fee function can
+	// never be used.
+	for maxFeeRateAllowed > 0 &&
+		maxFeeRateAllowed.FeeForWeight(size) > r.Budget {
+
+		maxFeeRateAllowed--
+	}
+
 	if maxFeeRateAllowed > r.MaxFeeRate {
 		log.Debugf("Budget feerate %v exceeds MaxFeeRate %v, use "+
 			"MaxFeeRate instead, txWeight=%v", maxFeeRateAllowed,
